@@ -365,7 +365,7 @@ func (o *oracleAtomic) finish(r *hRun) error { return nil }
 // call the state is dumped, then every argument object and every returned
 // value is overwritten in place; the state must not move, reads must repeat.
 type oracleAlias struct {
-	dumpAfterCall string
+	dumpAfterCall   string
 	scribbledNested int
 }
 
